@@ -102,6 +102,11 @@ def cases(tier: str, seed: int) -> list[dict]:
         # (what the file means is what emsarray.open_dataset decodes; the command line must read it the same way)
         w["coordenc"] = {"cf1d": "packed", "cf2d": "fill", "shoc_simple": "packed", "shoc_standard": "fill"}.get(conv)
         CD.add_data_vars(w, rng, rich=False, packed=True)
+        if conv in ("shoc_simple", "ugrid"):
+            # a time axis counted in milliseconds
+            for x in w["extras"]:
+                if (x.get("coord") or {}).get("kind") == "time":
+                    x["coord"] = dict(x["coord"], encoding={"units": "milliseconds since 2000-01-01 00:00:00", "calendar": "proleptic_gregorian"})
         geoms = GW.clip_geometries(w, rng)
         pts = GW.probe_points(w, rng, limit=12)
         cli = []
@@ -212,6 +217,14 @@ def proj_nc(path) -> dict:
             vars_.append({"name": str(n), "dims": [str(d) for d in v.dims], "shape": [int(s) for s in v.shape], "data": data})
         else:
             vars_.append({"name": str(n), "dims": [str(d) for d in v.dims], "shape": [int(s) for s in v.shape], "data": []})
+    # what the time axes of the file MEAN (units and counts read together): minutes since 1970 per record
+    dec = xarray.open_dataset(path).load()
+    dec.close()
+    for n in sorted(dec.variables):
+        if dec[n].dtype.kind == "M":
+            inst = numpy.atleast_1d(dec[n].values).astype("datetime64[s]").astype("int64").reshape(-1)
+            vars_.append({"name": str(n) + "@instants", "dims": [str(d) for d in dec[n].dims], "shape": [int(s) for s in dec[n].shape],
+                          "data": [int(x // 60) if x % 60 == 0 else BADINT for x in inst.tolist()]})
     return {"vars": vars_, "attrs": sorted([str(k), str(v)] for k, v in ds.attrs.items())}
 
 
@@ -324,7 +337,7 @@ def execute(case: dict) -> dict:
                 wd = work / "libwork"; wd.mkdir()
                 r = d.ems.clip(g, work_dir=wd)
                 p = work / "lib.nc"
-                r.ems.to_netcdf(p)
+                r.to_netcdf(p)          # xarray's own writer: what the library call returned, as it stands
                 return proj_nc(p)
             e["lib"] = outcome(lib) if e["request"] == "good" else {"err": "n/a"}
         elif cmd == "extract-points":
